@@ -13,7 +13,9 @@ package obiapat
 //      BestMatch's span lies inside the sequence with the same guarantee;
 //  (4) reverse-complementing a pattern does not change the pattern it was built from, is repeatable and involutive;
 //  (5) patterns of 33 to 64 symbols (sampled, not exhaustive): hits against the naive matcher;
-//  (6) obligatory positions ('#'): no hit with a mismatch on such a position.
+//  (6) obligatory positions ('#'): no hit with a mismatch on such a position;
+//  (7) bracket classes [..] and negated positions !X (exact matching) against sets computed here, the mirror-image
+//      rule for their reverse complement, and a search "to the end" on a sequence much longer than the pattern.
 // Injected into pkg/obiapat with `go test -overlay`; nothing is written into the repository.
 
 import (
@@ -337,6 +339,141 @@ func TestVerifBoundedPatternMatcher(t *testing.T) {
 					}
 				}
 			}
+		}
+	}
+	// (7) bracket classes and negated positions (exact matching), their reverse complement, and a search "to the end"
+	// of a sequence much longer than the pattern
+	{
+		parse := func(p string) []string {
+			var sets []string
+			neg := false
+			for i := 0; i < len(p); i++ {
+				c := p[i]
+				set := ""
+				switch {
+				case c == '!':
+					neg = true
+					continue
+				case c == '#':
+					continue
+				case c == '[':
+					j := i + 1
+					for ; p[j] != ']'; j++ {
+						set += verifIupac[p[j]|32]
+					}
+					i = j
+				default:
+					set = verifIupac[c|32]
+				}
+				if neg {
+					inv := ""
+					for _, b := range []byte("acgt") {
+						in := false
+						for k := 0; k < len(set); k++ {
+							if set[k] == b {
+								in = true
+							}
+						}
+						if !in {
+							inv += string(b)
+						}
+					}
+					set = inv
+					neg = false
+				}
+				sets = append(sets, set)
+			}
+			return sets
+		}
+		hits := func(p ApatPattern, s string) map[int]bool {
+			aseq, _ := MakeApatSequence(obiseq.NewBioSequence("x", []byte(s), ""), false)
+			got := map[int]bool{}
+			for _, m := range p.FindAllIndex(aseq, 0, -1) {
+				if m[1] <= len(s) {
+					got[m[0]] = true
+				}
+			}
+			return got
+		}
+		var seqs []string
+		var gen func(p []byte)
+		gen = func(p []byte) {
+			if len(p) == 6 {
+				seqs = append(seqs, string(p))
+				return
+			}
+			for i := 0; i < 4; i++ {
+				gen(append(p, "acgt"[i]))
+			}
+		}
+		gen(nil)
+		for _, pat := range []string{"AC[CT]GA", "ACTG[ACG]", "[AG]CGT", "A!CGT", "!ACGT", "!GA#TC", "AC!GT", "C[AT]!G"} {
+			sets := parse(pat)
+			p, err := MakeApatPattern(pat, 0, false)
+			if err != nil {
+				fail("class-pattern=" + pat + ":cannot-compile")
+				continue
+			}
+			rc, err := p.ReverseComplement()
+			if err != nil {
+				cases++
+				fail("class-pattern=" + pat + ":cannot-complement")
+			}
+			for _, s := range seqs {
+				cases++
+				want := map[int]bool{}
+				for q := 0; q+len(sets) <= len(s); q++ {
+					ok := true
+					for k := range sets {
+						in := false
+						for x := 0; x < len(sets[k]); x++ {
+							if sets[k][x] == s[q+k] {
+								in = true
+							}
+						}
+						if !in {
+							ok = false
+						}
+					}
+					if ok {
+						want[q] = true
+					}
+				}
+				got := hits(p, s)
+				if fmt.Sprint(got) != fmt.Sprint(want) {
+					fail(fmt.Sprintf("class-pattern=%s,seq=%s:hits=%v,want=%v", pat, s, got, want))
+				}
+				if err == nil {
+					// the complemented pattern on s finds the mirror images of the hits of the pattern on revcomp(s)
+					rs := obiseq.NewBioSequence("x", []byte(s), "").ReverseComplement(false).String()
+					mir := map[int]bool{}
+					for q := range hits(p, rs) {
+						mir[len(s)-q-len(sets)] = true
+					}
+					if gotrc := hits(rc, s); fmt.Sprint(gotrc) != fmt.Sprint(mir) {
+						fail(fmt.Sprintf("class-pattern=%s,seq=%s:complemented-hits=%v,mirror=%v", pat, s, gotrc, mir))
+					}
+				}
+			}
+		}
+		// search to the end (length < 0) of a sequence much longer than the pattern
+		long := make([]byte, 220)
+		for i := range long {
+			long[i] = "acg"[(i*7+i/5)%3]
+		}
+		for _, q := range []int{10, 90, 150, 200} {
+			copy(long[q:], "acgtt")
+		}
+		cases++
+		p, _ := MakeApatPattern("ACGTT", 0, false)
+		want := map[int]bool{}
+		for q := 0; q+5 <= len(long); q++ {
+			if string(long[q:q+5]) == "acgtt" {
+				want[q] = true
+			}
+		}
+		if got := hits(p, string(long)); fmt.Sprint(got) != fmt.Sprint(want) {
+			fail(fmt.Sprintf("search-to-the-end:hits=%v,want=%v", got, want))
 		}
 	}
 	fmt.Printf("VERIF-BOUNDED name=pattern-matcher bound=%d cases=%d failures=%d first=%s\n", bound, cases, failures, first)
